@@ -239,8 +239,17 @@ def check_all_intervals(ix, rep, hs, rule='R-EXPL-ALL'):
                 for nm in ast.walk(x.iter):
                     if isinstance(nm, ast.Name) and nm.id in ('begin', 'end'):
                         used.add(nm.id)
+            # the scan written as a while loop: `i = begin` starts it, `i <= end` / `i < end + 1` stops it
+            if isinstance(x, ast.Assign) and isinstance(x.value, ast.Name) and x.value.id in ('begin', 'end') and any(isinstance(w_, ast.While) for w_ in ast.walk(g.node)):
+                used.add(x.value.id)
+            if isinstance(x, ast.While):
+                for nm in ast.walk(x.test):
+                    if isinstance(nm, ast.Name) and nm.id in ('begin', 'end'):
+                        used.add(nm.id)
         if (used == {'begin'} and first) or (used == {'end'} and last):
             rep.ok(rule, g.module.rel, g.qual, slot, 'uses only `%s` of the %s requested interval, which bounds all of them' % (used.pop(), 'first' if first else 'last'), g.node.lineno)
+        elif not used and any(isinstance(w_, ast.While) for w_ in ast.walk(g.node)):
+            rep.error('%s (%s): which of the requested intervals the helper honours is not read off a while-loop scan' % (g.where, g.qual))
         else:
             rep.fail(rule, g.module.rel, g.qual, slot, 'only interval [%s] of the requested intervals is honoured (uses %s): when the parent asks for several disjoint intervals the '
                      'others are dropped and the reported samples are no sufficient cause' % (which, sorted(used)), idx[0].lineno)
@@ -964,9 +973,26 @@ def check_accumulation(ix, rep, cls, rule='R-ACCUM'):
     # gate
     visits = [c for c in ast.walk(ex.node) if isinstance(c, ast.Call) and D._self_call(c) == 'visit']
     gated = False
+    binds = {}
     for n in ast.walk(ex.node):
-        if isinstance(n, ast.If) and ast.unparse(n.test).replace(' ', '') in ('top_signal[0]<0',) and all(any(v is x for x in ast.walk(n)) for v in visits):
-            gated = True
+        if isinstance(n, ast.Assign) and len(n.targets) == 1 and isinstance(n.targets[0], ast.Name):
+            binds[n.targets[0].id] = n.value
+
+    def _is_top_value(e):
+        # <signal of the specification's last assertion>[0], the signal read from the results table (through locals)
+        if not (isinstance(e, ast.Subscript) and ast.unparse(e.slice) == '0'):
+            return False
+        b = e.value
+        seen_ = 0
+        while isinstance(b, ast.Name) and b.id in binds and seen_ < 5:
+            b = binds[b.id]
+            seen_ += 1
+        return '.results[' in ast.unparse(b)
+    for n in ast.walk(ex.node):
+        if isinstance(n, ast.If) and isinstance(n.test, ast.Compare) and len(n.test.ops) == 1 and all(any(v is x for x in ast.walk(ast.Module(body=n.body, type_ignores=[]))) for v in visits):
+            l, op, r = n.test.left, n.test.ops[0], n.test.comparators[0]
+            if (isinstance(op, ast.Lt) and _is_top_value(l) and ast.unparse(r) in ('0', '0.0')) or (isinstance(op, ast.Gt) and _is_top_value(r) and ast.unparse(l) in ('0', '0.0')):
+                gated = True
     arg_ok = all(ast.unparse(v.args[1]).replace(' ', '') == '[[[0,0]],False]' for v in visits)
     if gated and arg_ok and visits:
         rep.ok(rule, ex.module.rel, ex.qual, 'gate', 'explanation starts at sample 0 with violated polarity, only when the value at 0 is negative', ex.node.lineno)
@@ -1033,6 +1059,22 @@ def check_union(ix, rep, rule='R-ACCUM'):
             for st in ast.walk(loop[0]):
                 if isinstance(st, ast.Assign) and isinstance(st.targets[0], ast.Subscript) and ast.unparse(st.targets[0]).replace(' ', '') == 'out[-1][1]':
                     merged = st.value
+            other_store = [st for st in ast.walk(loop[0]) if isinstance(st, ast.Assign) and isinstance(st.targets[0], ast.Subscript) and ast.unparse(st.targets[0].slice) == '1']
+            if merged is None and other_store:
+                # the last interval is extended through a local alias / a guarded store: a form that is not read here (the guarded store `if e > x[1]: x[1] = e` is max)
+                st_ = other_store[0]
+                guarded_max = False
+                for iff in ast.walk(loop[0]):
+                    if isinstance(iff, ast.If) and any(st_ is q for q in iff.body) and isinstance(iff.test, ast.Compare) and len(iff.test.ops) == 1:
+                        l_, r_ = ast.unparse(iff.test.left).replace(' ', ''), ast.unparse(iff.test.comparators[0]).replace(' ', '')
+                        tgt = ast.unparse(st_.targets[0]).replace(' ', '')
+                        val = ast.unparse(st_.value).replace(' ', '')
+                        if (isinstance(iff.test.ops[0], ast.Gt) and l_ == val == e and r_ == tgt) or (isinstance(iff.test.ops[0], ast.Lt) and r_ == val == e and l_ == tgt):
+                            guarded_max = True
+                if not guarded_max:
+                    rep.error('%s (interval_union): how the last interval is extended is not read (`%s`)' % (f.where, ast.unparse(st_)[:50]))
+                    continue
+                merged = ast.parse('max(out[-1][1], %s)' % e, mode='eval').body
             if merged is None:
                 probs.append('never extends the last interval')
             else:
@@ -1062,7 +1104,7 @@ def check(ix, rep):
     rep.floor('helpers checked for honouring every interval', na, 20)
     check_accumulation(ix, rep, cls)
     noo = check_output_only(ix, rep, cls)
-    rep.floor('explain() entry points', noo, 2)
+    rep.floor('explain() entry points', noo, 1)
     nfp = check_footprints(ix, rep, cls, hs)
     nnm = check_nonmonotone(ix, rep, cls, hs)
     from sa.rules import units as _u
@@ -1074,7 +1116,7 @@ def check(ix, rep):
     rep.floor('operands of non-monotone connectives (iff, xor)', nnm, 4)
     rep.floor('shifting pointwise operators checked for their explanation footprint', nfp, 6)
     nu = check_union(ix, rep)
-    rep.floor('interval_union definitions', nu, 2)
+    rep.floor('interval_union definitions', nu, 1)
     explanation = (
         'Necessary structural conditions of "the reported samples are a sufficient cause", each of which a concrete failing input exists for when '
         'broken. R-EXH: every operator of the supported fragment has an explanation handler, until/since/precedes are rejected with '
